@@ -597,7 +597,7 @@ pub struct Dual {
     pub len: usize,
 }
 
-fn dual_opts(d: &Dual) -> Opts {
+pub fn dual_opts(d: &Dual) -> Opts {
     let names = || Names::both('n', "name");
     let adj = P::Arg { names: names(), ty: Ty::Os, adjacent: true, metavar: "N".into() };
     let plain = P::Arg { names: names(), ty: Ty::Os, adjacent: false, metavar: "N".into() };
